@@ -518,6 +518,62 @@ fn framing_unit(maxlen: usize) -> Unit {
     })
 }
 
+/// One case of unit big-batches: `n` u8 lines to `n` different addresses (plus a final port line), delivered in
+/// batches of the given sizes; every byte must be stored.
+pub fn big_batch_case(rig: &mut Rig, n: usize, sizes: &[usize]) -> Option<String> {
+    let base = 0x440000u32;
+    let lines: Vec<String> = (0..n).map(|i| format!("u8:{:x}:{:x}", base + i as u32, ((i * 7) % 255 + 1) as u8)).collect();
+    for i in 0..n {
+        poke(&mut rig.cpu, base + i as u32, &[0]);
+    }
+    let mut batches: Vec<Vec<&str>> = Vec::new();
+    let mut at = Vec::new();
+    let mut pos = 0usize;
+    for (bi, &sz) in sizes.iter().enumerate() {
+        let end = (pos + sz).min(n);
+        batches.push(lines[pos..end].iter().map(|s| s.as_str()).collect());
+        at.push(2 + 2 * bi);
+        pos = end;
+    }
+    let horizon = 2 + 2 * sizes.len() + 12;
+    let o = run_batches(rig, &batches, &at, horizon);
+    if !o.result.contains(verif_hooks::HORIZON_MESSAGE) {
+        return Some(format!("{} u8 lines in batches {:?}: run() ended: {}", n, sizes, o.result));
+    }
+    let mut missing = 0usize;
+    let mut first = None;
+    for i in 0..pos {
+        let want = ((i * 7) % 255 + 1) as u8;
+        if peek(&rig.cpu, base + i as u32) != want {
+            missing += 1;
+            if first.is_none() {
+                first = Some(i);
+            }
+        }
+    }
+    if missing > 0 {
+        return Some(format!("{} u8 lines to {} different addresses delivered in batches {:?}: {} of them took no effect (first: line {})", n, n, sizes, missing, first.unwrap()));
+    }
+    None
+}
+
+fn big_batch_unit() -> Unit {
+    let cases: Vec<(usize, Vec<usize>)> = vec![
+        (255, vec![255]), (256, vec![256]), (257, vec![257]), (1023, vec![1023]), (1024, vec![1024]), (1025, vec![1025]), (4095, vec![4095]), (4096, vec![4096]), (4097, vec![4097]), (5000, vec![5000]),
+        (9000, vec![9000]), (20000, vec![20000]), (65537, vec![65537]), (9000, vec![4096, 4904]), (9000, vec![4097, 4903]), (9000, vec![1, 8999]), (12000, vec![4000, 4000, 4000]), (70000, vec![35000, 35000]),
+    ];
+    let dom = format!("large polling batches: n u8 lines to n different addresses queued before one poll (or split over two or three polls), for (n, batch sizes) in {:?}, through the real run(): every byte must be stored", cases);
+    Unit::new("big-batches", cases.len() as u64, &dom, move |ctx, chunk| {
+        let mut rig = Rig::new(&ctx.isa);
+        let (n, sizes) = &cases[chunk as usize];
+        ctx.st.cases += 1;
+        ctx.st.nontrivial += 1;
+        if let Some(msg) = big_batch_case(&mut rig, *n, sizes) {
+            ctx.custom_violation("c18", msg, json!({"big_batch": [n, sizes]}), json!(null), json!(null));
+        }
+    })
+}
+
 /// Large backlogs behind the send worker: the client starts reading only after everything was emitted.
 fn backlog_unit() -> Unit {
     let configs: Vec<(usize, usize)> = vec![(20000, 8), (3000, 100), (700, 1000), (150, 5000), (40, 70000), (9, 300000)];
@@ -612,6 +668,7 @@ pub fn c18(tier: Tier, _seed: u64) -> Prop {
     }
     units.push(framing_unit(if thorough { 5 } else { 4 }));
     units.push(backlog_unit());
+    units.push(big_batch_unit());
     units.push(super::realbin::c18_unit());
     Prop {
         id: "C18",
@@ -642,6 +699,18 @@ pub fn replay_c18(case: &Value) -> bool {
     if case["framing"].is_string() || case["backlog"].is_array() {
         println!("framing counterexamples are re-checked by re-running the check (they need the TCP rig)");
         return false;
+    }
+    if let Some(bb) = case["big_batch"].as_array() {
+        let mut rig = Rig::new(&isa);
+        let n = bb[0].as_u64().unwrap_or(0) as usize;
+        let sizes: Vec<usize> = bb[1].as_array().map(|a| a.iter().map(|x| x.as_u64().unwrap_or(0) as usize).collect()).unwrap_or_default();
+        return match big_batch_case(&mut rig, n, &sizes) {
+            Some(m) => {
+                println!("FAILS: {}", m);
+                false
+            }
+            None => true,
+        };
     }
     let mut rig = Rig::new(&isa);
     let batches_owned: Vec<Vec<String>> = case["batches"].as_array().map(|a| a.iter().map(|b| b.as_array().map(|x| x.iter().map(|s| s.as_str().unwrap_or("").to_string()).collect()).unwrap_or_default()).collect()).unwrap_or_default();
